@@ -79,40 +79,80 @@ def rule_spec(ctx, fmt):
                   "%s must map %r to 0..%d in that order; encoder maps %s" % (name, alpha, len(alpha) - 1, {chr(k): v for k, v in sorted(got_p.items())}), "encoder alphabet is %r" % alpha)
         ctx.check("C02.spec", got_u == want, where(DEC, "ReadDecoder.unpackByte", ub.lineno), "%s alphabet (decoder)" % name,
                   "%s must map 0..%d back to %r; decoder maps %s" % (name, len(alpha) - 1, alpha, {chr(k): v for k, v in sorted(got_u.items()) if 0 <= k < 256}), "decoder alphabet is %r" % alpha)
-    # double byte token prefixes
+    # double byte token prefixes: the format says index i of the secondary dictionary goes out as
+    # (DICTIONARY_<i // 256>, i % 256); writeString is abstractly executed for every index (see C01.dbl)
     ws = ctx.repo.method(ENC, "WriteEncoder", "writeString")
-    consts_ = sorted({n.value for n in ast.walk(ws) if isinstance(n, ast.Constant) and isinstance(n.value, int) and 200 <= n.value <= 255})
+    wsw = where(ENC, "WriteEncoder.writeString", ws.lineno)
+    n = c01.secondary_size(ctx)
     dd = [T["DICTIONARY_%d" % i] for i in range(4)]
-    has_all = all(d in consts_ for d in dd)
-    if not has_all:
-        # arithmetic form BASE + quotient
-        has_all = dd[0] in consts_
-    ctx.check("C02.spec", has_all, where(ENC, "WriteEncoder.writeString", ws.lineno), "secondary dictionary prefixes %s" % consts_,
-              "secondary-dictionary tokens must be prefixed by 236..239; writeString mentions %s" % consts_, "prefixes 236..239")
+    bad, unknown = [], None
+    for i in range(n or 0):
+        r = c01.dbl_encode(ctx.repo, enc, ws, i)
+        if r[0] == "unknown":
+            unknown = "index %d: %s" % (i, r[1])
+            break
+        want = [dd[i // 256], i % 256] if i // 256 < 4 else None
+        if r[0] == "raise":
+            if want is not None:
+                bad.append("index %d refused" % i)
+        elif r[1] != want:
+            bad.append("index %d written as %s, the format says %s" % (i, r[1], want))
+    if n is None or unknown:
+        ctx.undecided("C02.spec", wsw, ws, "double-byte tokens could not be evaluated: %s" % (unknown or "secondary dictionary size"))
+    else:
+        ctx.check("C02.spec", not bad, wsw, "secondary dictionary prefixes (all %d indices)" % n,
+                  "secondary-dictionary tokens must be written as (236 + index // 256, index %% 256): " + "; ".join(bad[:3]), "prefixes 236..239, offset = index % 256")
+
+
+def jid_result(repo, dec, rs, jk, user, server):
+    from ..absint import Interp, Obj, _Raise, Budget, NeedAtom
+    seq = [user, server]
+
+    def inner(it, fn, owner, self_val, args, kwargs):
+        if not state["entered"]:
+            state["entered"] = True
+            return None
+        v = seq[state["n"]] if state["n"] < len(seq) else "?"
+        state["n"] += 1
+        return ("c", v)
+    state = {"entered": False, "n": 0}
+    it = Interp(repo, {}, {}, hooks={"fn:" + rs.name: inner})
+    o = Obj(dec)
+    o.fields["tokenDictionary"] = ("ext", "tokdict", [])
+    try:
+        v = it.call_function(rs, dec, ("obj", o), [("c", jk), ("ext", "data", [])], {}, depth=0)
+    except _Raise as r:
+        return ("raise", r.text[:40])
+    except (NeedAtom, Budget) as x:
+        return ("unknown", str(x)[:40])
+    return ("ret", v[1]) if v[0] == "c" else ("unknown", str(v)[:40])
 
 
 def rule_alts(ctx, fmt):
+    """every alternative form the format permits is accepted by the decoder - by semantic dispatch: the decoder's
+    functions are abstractly executed once per control byte (sa/bytedispatch.py), so if-chains, tables and helpers agree"""
+    from ..bytedispatch import Dispatch
     dec = ctx.repo.cls(DEC, "ReadDecoder")
     T = fmt["tags"]
     # list sizes
     rls = ctx.repo.method(DEC, "ReadDecoder", "readListSize")
-    tab, rest = c01.dispatch_table(ctx, dec, rls, params_of(rls)[0])
+    ld = Dispatch(ctx.repo, dec, rls, params_of(rls)[0])
+    wl = where(DEC, "ReadDecoder.readListSize", rls.lineno)
     for name in ("LIST_EMPTY", "LIST_8", "LIST_16"):
         k = T[name]
-        br = [b for b in tab if b[0] is not None and k in b[0]]
-        ok = bool(br) and not c01.always_raises(br[-1][1])
-        ctx.check("C02.alts", ok, where(DEC, "ReadDecoder.readListSize", rls.lineno), "%s (%d)" % (name, k),
+        b = ld.run_value(k)
+        ok = b.accepts
+        ctx.check("C02.alts", ok, wl, "%s (%d)" % (name, k),
                   "a peer may encode a list as %s (%d) but readListSize has no accepting branch" % (name, k), "accepted")
         if ok and name != "LIST_EMPTY":
-            rN = c01.first_reader(ctx, dec, br[-1][1])
+            rN = b.first_int()
             want = fmt["length_bits"][name]
-            ctx.check("C02.alts", rN == want, where(DEC, "ReadDecoder.readListSize", br[-1][2].lineno), "%s size width" % name,
+            ctx.check("C02.alts", rN == want, wl, "%s size width" % name,
                       "%s carries a %d-bit size, decoder reads %s bits" % (name, want, rN), "%d-bit size" % want)
-    rs0 = ctx.repo.method(DEC, "ReadDecoder", "readString")
-    rs_covered = set()
-    for b in c01.dispatch_table(ctx, dec, rs0, params_of(rs0)[0])[0]:
-        if b[0] is not None and not c01.always_raises(b[1]):
-            rs_covered |= b[0]
+    rs = ctx.repo.method(DEC, "ReadDecoder", "readString")
+    svar = params_of(rs)[0]
+    sd = Dispatch(ctx.repo, dec, rs, svar)
+    covered = {k for k in range(256) if sd.run_value(k).accepts}
     # content alternatives in nextTreeInternal
     nti = ctx.repo.method(DEC, "ReadDecoder", "nextTreeInternal")
     cvar = None
@@ -120,42 +160,38 @@ def rule_alts(ctx, fmt):
         if isinstance(n, ast.Call) and is_self_attr(n.func, "isListTag") and n.args and isinstance(n.args[0], ast.Name):
             cvar = n.args[0].id
     w = where(DEC, "ReadDecoder.nextTreeInternal", nti.lineno)
-    if cvar is None:
+    nd = None
+    if cvar is not None:
+        try:
+            nd = Dispatch(ctx.repo, dec, nti, cvar)
+        except LookupError:
+            nd = None
+    if nd is None:
         ctx.undecided("C02.alts", w, nti, "content dispatch variable not found")
     else:
-        tab, rest = c01.dispatch_table(ctx, dec, nti, cvar)
-        # is there a final generic else that hands the byte to readString?
-        generic = False
-        for n in ast.walk(nti):
-            if isinstance(n, ast.Call) and is_self_attr(n.func, "readString") and n.args and isinstance(n.args[0], ast.Name) and n.args[0].id == cvar:
-                generic = True
+        def to_string(b):
+            return b.accepts and all(c.names[:1] == ["readString"] for c in b.cells if c.outcome == "ret")
+        generic = any(to_string(nd.run_value(k)) for k in range(256))
         for name in ("LIST_EMPTY", "LIST_8", "LIST_16", "BINARY_8", "BINARY_20", "BINARY_32", "HEX_8", "NIBBLE_8"):
             k = T[name]
-            br = [b for b in tab if b[0] is not None and k in b[0]]
-            ok = bool(br) and not c01.always_raises(br[-1][1])
+            b = nd.run_value(k)
+            ok = b.accepts
             if name.startswith("LIST"):
                 # children lists must reach readList through the list branch
-                ok = ok and any(isinstance(c, ast.Call) and is_self_attr(c.func, "readList") for s_ in br[-1][1] for c in ast.walk(s_))
-            elif not ok and generic:
-                ok = k in rs_covered
+                ok = ok and b.count("readList") >= 1
+            elif to_string(b):
+                ok = k in covered
             ctx.check("C02.alts", ok, w, "content form %s (%d)" % (name, k), "node content encoded as %s (%d) has no accepting branch" % (name, k), "accepted")
-            if br and name in fmt["length_bits"] and name.startswith("BINARY"):
-                rN = c01.first_reader(ctx, dec, br[-1][1])
+            if b.accepts and not to_string(b) and name in fmt["length_bits"] and name.startswith("BINARY"):
+                rN = b.first_int()
                 want = fmt["length_bits"][name]
                 okw = rN in want if isinstance(want, list) else rN == want
-                ctx.check("C02.alts", okw, where(DEC, "ReadDecoder.nextTreeInternal", br[-1][2].lineno), "content %s length width" % name,
+                ctx.check("C02.alts", okw, w, "content %s length width" % name,
                           "%s carries a %s-bit length, decoder reads %s bits" % (name, want, rN), "%s-bit length" % rN)
         ctx.check("C02.alts", generic, w, "string-valued content (token / JID)", "content given as a token or JID string is not handed to readString", "token/JID content handled by readString")
     # string alternatives in readString
-    rs = ctx.repo.method(DEC, "ReadDecoder", "readString")
-    svar = params_of(rs)[0]
-    tab, rest = c01.dispatch_table(ctx, dec, rs, svar)
     wr = where(DEC, "ReadDecoder.readString", rs.lineno)
     lo, hi = fmt["single_byte_tokens"]
-    covered = set()
-    for b in tab:
-        if b[0] is not None and not c01.always_raises(b[1]):
-            covered |= b[0]
     ctx.check("C02.alts", set(range(lo, hi + 1)) <= covered, wr, "single-byte tokens %d..%d" % (lo, hi),
               "tokens %s are not accepted by readString" % sorted(set(range(lo, hi + 1)) - covered)[:8], "accepted")
     for name in ("DICTIONARY_0", "DICTIONARY_1", "DICTIONARY_2", "DICTIONARY_3", "JID_PAIR", "HEX_8", "NIBBLE_8", "BINARY_8", "BINARY_20", "BINARY_32"):
@@ -163,21 +199,22 @@ def rule_alts(ctx, fmt):
         ctx.check("C02.alts", k in covered, wr, "string form %s (%d)" % (name, k), "a string encoded as %s (%d) is not accepted by readString" % (name, k), "accepted")
     for name in ("BINARY_8", "BINARY_20", "BINARY_32"):
         k = T[name]
-        br = [b for b in tab if b[0] is not None and k in b[0]]
-        if br:
-            rN = c01.first_reader(ctx, dec, br[-1][1])
+        b = sd.run_value(k)
+        if b.accepts:
+            rN = b.first_int()
             want = fmt["length_bits"][name]
             okw = rN in want if isinstance(want, list) else rN == want
-            ctx.check("C02.alts", okw, where(DEC, "ReadDecoder.readString", br[-1][2].lineno), "string %s length width" % name,
+            ctx.check("C02.alts", okw, wr, "string %s length width" % name,
                       "%s carries a %s-bit length, decoder reads %s bits" % (name, want, rN), "%s-bit length" % rN)
-    # JID without user part: server only
-    br = [b for b in tab if b[0] is not None and T["JID_PAIR"] in b[0]]
-    if br:
-        rets = [n for s in br[-1][1] for n in ast.walk(s) if isinstance(n, ast.Return)]
-        server_only = any(isinstance(r.value, ast.Name) for r in rets)
-        joined = any(isinstance(r.value, ast.BinOp) for r in rets)
-        ctx.check("C02.alts", server_only and joined, where(DEC, "ReadDecoder.readString", br[-1][2].lineno), "JID with / without user part",
-                  "a JID pair must decode to user@server, or to the server alone when the user part is absent", "both JID forms accepted")
+    # JID without user part: server only.  The JID branch is abstractly executed with the two inner strings read
+    # as (absent, "s") and ("u", "s"): it must return "s" and "u@s"
+    jk = T["JID_PAIR"]
+    if jk in covered:
+        got = {}
+        for user in (None, "u"):
+            got[user] = jid_result(ctx.repo, dec, rs, jk, user, "s")
+        ctx.check("C02.alts", got[None] == ("ret", "s") and got["u"] == ("ret", "u@s"), wr, "JID with / without user part",
+                  "a JID pair must decode to user@server, or to the server alone when the user part is absent; got %s and %s" % (got["u"], got[None]), "both JID forms accepted")
     # frame flags
     gp = ctx.repo.method(DEC, "ReadDecoder", "getProtocolTreeNode")
     wg = where(DEC, "ReadDecoder.getProtocolTreeNode", gp.lineno)
